@@ -121,7 +121,7 @@ func freePort() string {
 var nutsEnv = []string{"NUTS_DATADIR", "NUTS_CONFIGFILE", "NUTS_HTTP_INTERNAL_ADDRESS", "NUTS_HTTP_PUBLIC_ADDRESS", "NUTS_NETWORK_GRPCADDR",
 	"NUTS_EVENTS_NATS_PORT", "NUTS_EVENTS_NATS_HOSTNAME", "NUTS_URL", "NUTS_DIDMETHODS", "NUTS_VERBOSITY", "NUTS_CRYPTO_STORAGE", "NUTS_STRICTMODE",
 	"NUTS_AUTH_CONTRACTVALIDATORS", "NUTS_AUTH_IRMA_AUTOUPDATESCHEMAS", "NUTS_NETWORK_ENABLEDISCOVERY", "NUTS_HTTP_LOG", "NUTS_DISCOVERY_CLIENT_REFRESHINTERVAL",
-	"NUTS_CRYPTO_VAULT_ADDRESS", "NUTS_CRYPTO_VAULT_TOKEN", "NUTS_CRYPTO_VAULT_TIMEOUT", "NUTS_CRYPTO_VAULT_PATHPREFIX", "NUTS_CRYPTO_EXTERNAL_ADDRESS", "NUTS_CRYPTO_EXTERNAL_TIMEOUT", "NUTS_INTERNALRATELIMITER"}
+	"NUTS_CRYPTO_VAULT_ADDRESS", "NUTS_CRYPTO_VAULT_TOKEN", "NUTS_CRYPTO_VAULT_TIMEOUT", "NUTS_CRYPTO_VAULT_PATHPREFIX", "NUTS_CRYPTO_EXTERNAL_ADDRESS", "NUTS_CRYPTO_EXTERNAL_TIMEOUT", "NUTS_INTERNALRATELIMITER", "NUTS_NETWORK_V2_DIAGNOSTICSINTERVAL"}
 
 func startNode(t testing.TB) *node {
 	installLogCapture(t)
@@ -165,6 +165,10 @@ func startNodeOnce(t testing.TB) (*node, error) {
 		"NUTS_URL": "http://" + n.public, "NUTS_DIDMETHODS": "web,nuts", "NUTS_VERBOSITY": "trace", "NUTS_CRYPTO_STORAGE": "fs",
 		"NUTS_STRICTMODE": "false", "NUTS_AUTH_CONTRACTVALIDATORS": "dummy", "NUTS_AUTH_IRMA_AUTOUPDATESCHEMAS": "false",
 		"NUTS_NETWORK_ENABLEDISCOVERY": "false", "NUTS_HTTP_LOG": "metadata-and-body",
+		// no diagnostics broadcast: network.Start starts the protocols (and with them the broadcast ticker, default 5 s) BEFORE the connection
+		// manager registers them; when a node start takes longer than the interval (machine load) broadcastDiagnostics dereferences the
+		// still-nil connection list and the whole process dies (seen as ops workers ending with SIGSEGV in senders.go:219; a C19 lead, not C03)
+		"NUTS_NETWORK_V2_DIAGNOSTICSINTERVAL": "0",
 	}
 	for k, v := range nodeEnvExtra {
 		env[k] = v
